@@ -11,6 +11,23 @@ func Title(s string) string {
 	return cases.Title(language.Und, cases.NoLower).String(s)
 }
 
+// definesAttribute returns true if the type of att or one of its bases defines
+// an attribute with the given name. Unlike Find it ignores the references of
+// att: an inline body references the method payload so that the attributes it
+// lists inherit their definition from it, that does not make the other payload
+// attributes part of the body.
+func definesAttribute(att *AttributeExpr, name string) bool {
+	if o := AsObject(att.Type); o != nil && o.Attribute(name) != nil {
+		return true
+	}
+	for _, b := range att.Bases {
+		if o := AsObject(b); o != nil && o.Attribute(name) != nil {
+			return true
+		}
+	}
+	return false
+}
+
 // findKey finds the given key in the endpoint expression and returns the
 // transport element name and the position (header, query, or body for HTTP or
 // message, metadata for gRPC endpoint).
@@ -25,7 +42,7 @@ func findKey(exp eval.Expression, keyAtt string) (string, string) {
 			return "", "header"
 		}
 		if _, ok := e.Body.Meta["http:body"]; ok {
-			if e.Body.Find(keyAtt) != nil {
+			if definesAttribute(e.Body, keyAtt) {
 				return keyAtt, "body"
 			}
 			if m, ok := e.Body.Meta["origin:attribute"]; ok && m[0] == keyAtt {
